@@ -85,6 +85,9 @@ fn key(x: &(u8, TextRange)) -> (u8, u32, u32) {
 
 fuzz_target!(|data: &[u8]| {
     let Some(inp) = common::decode(data) else { return };
+    if common::too_deep(&inp.text) {
+        return;
+    }
     let Ok(m) = parse(&inp.text, inp.mode, "<fuzz>") else { return };
     let mut w = Walk::default();
     let same = w.fold_mod(m.clone()).unwrap();
